@@ -8,7 +8,7 @@ Two tables:
   0-d quantity), so it follows whatever the code under $UNYT_REPO does now.
 * `c16HandlerRules` — for every NumPy function in `_HANDLED_FUNCTIONS`, how each `return`
   statement of its handler builds the value it returns (`res * units`, `unyt_array(res, …)`,
-  class chosen by `res.ndim == 0`, …), obtained from the SOURCE of `_array_functions.py` via `ast`.
+  class chosen by `res.ndim == 0`, a bare NumPy result, a re-dispatch, …), obtained from the SOURCE of `_array_functions.py` via `ast`.
 
 The JSON returned (build/extract_c16_tables.json) carries the same data for the harness.
 """
@@ -209,10 +209,67 @@ def _is_unit_expr(v, unit_names):
     return False
 
 
+_UNYT_NAMES = ("unyt_array", "unyt_quantity")
+
+
+def _mentions_unyt(expr, fi, seen=()):
+    """could this expression build (or re-class) a unyt object by itself?  True when it mentions a
+    unyt class, `.view(`, `type(x)(…)`, or a local name assigned from such an expression"""
+    for n in ast.walk(expr):
+        if isinstance(n, ast.Name) and n.id in _UNYT_NAMES:
+            return True
+        if isinstance(n, ast.Attribute) and n.attr in _UNYT_NAMES + ("view", "__class__"):
+            return True
+        if isinstance(n, ast.Call) and isinstance(n.func, ast.Call) and isinstance(n.func.func, ast.Name) and n.func.func.id == "type":
+            return True
+        if isinstance(n, ast.Name) and n.id in fi.assign and n.id not in seen:
+            if any(_mentions_unyt(v, fi, seen + (n.id,)) for v in fi.assign[n.id]):
+                return True
+    return False
+
+
+def _leaf(expr, fi):
+    """classification of an expression none of the unyt-building patterns matched:
+       unknown    — it mentions a unyt class / .view( / type(x)( : builds a unyt object in a way
+                    the translator does not understand
+       redispatch — a public NumPy call or a call of a caller-supplied function: the class is
+                    decided by that callee's own handler / the default path
+       npImpl     — built only from `np.X._implementation(…)` results, parameters and plain
+                    Python: whatever NumPy's implementation returns, no unyt object is built here
+       noValue    — None, a constant, a string, a comparison"""
+    if expr is None or isinstance(expr, (ast.Constant, ast.JoinedStr, ast.Compare, ast.BoolOp)):
+        return {"noValue"}
+    if _mentions_unyt(expr, fi):
+        return {"unknown"}
+    params = {a.arg for a in fi.node.args.args + fi.node.args.kwonlyargs + fi.node.args.posonlyargs}
+    for n in ast.walk(expr):
+        if isinstance(n, ast.Call):
+            f = n.func
+            if isinstance(f, ast.Name) and f.id in params:
+                return {"redispatch"}
+            if isinstance(f, ast.Attribute) and f.attr != "_implementation":
+                # np.X(...) / np.linalg.X(...) entry points that go through __array_function__
+                # (np.asarray, np.empty, … do not dispatch and only convert)
+                chain = []
+                root = f
+                while isinstance(root, ast.Attribute):
+                    chain.append(root.attr)
+                    root = root.value
+                if isinstance(root, ast.Name) and root.id == "np":
+                    import numpy as _np
+
+                    obj = _np
+                    for a_ in reversed(chain):
+                        obj = getattr(obj, a_, None)
+                    if hasattr(obj, "_implementation"):
+                        return {"redispatch"}
+    return {"npImpl"}
+
+
 def classify(expr, fi, funcs, depth=0, seen=()):
     """set of rule names for one returned expression"""
     if expr is None:
-        return {"other"}
+        return {"noValue"}
     if isinstance(expr, ast.Tuple):
         out = set()
         for e in expr.elts:
@@ -232,7 +289,7 @@ def classify(expr, fi, funcs, depth=0, seen=()):
         sub = classify(expr.left, fi, funcs, depth, seen) | classify(expr.right, fi, funcs, depth, seen)
         if "timesUnit" in sub:
             return {"timesUnit"}
-        return {"other"}
+        return _leaf(expr, fi)
     if isinstance(expr, ast.Call):
         f = expr.func
         if isinstance(f, ast.Name):
@@ -255,10 +312,10 @@ def classify(expr, fi, funcs, depth=0, seen=()):
                     return {"alwaysArray"}
                 if names == {"unyt_quantity"}:
                     return {"alwaysQuantity"}
-                return {"other"}
+                return _leaf(expr, fi)
             if f.id in funcs and f.id not in seen and depth < 3:
                 return rules_of_function(funcs[f.id], funcs, depth + 1, seen + (f.id,))
-        return {"other"}
+        return _leaf(expr, fi)
     if isinstance(expr, ast.Name):
         vals = fi.assign.get(expr.id)
         if vals and expr.id not in seen and depth < 3:
@@ -266,8 +323,8 @@ def classify(expr, fi, funcs, depth=0, seen=()):
             for v in vals:
                 out |= classify(v, fi, funcs, depth + 1, seen + (expr.id,))
             return out
-        return {"other"}
-    return {"other"}
+        return _leaf(expr, fi)
+    return _leaf(expr, fi)
 
 
 def rules_of_function(node, funcs, depth=0, seen=()):
@@ -276,7 +333,7 @@ def rules_of_function(node, funcs, depth=0, seen=()):
     for n in ast.walk(node):
         if isinstance(n, ast.Return):
             out |= classify(n.value, fi, funcs, depth, seen)
-    return out or {"other"}
+    return out or {"noValue"}
 
 
 def public_name(func):
